@@ -568,7 +568,7 @@ func (e *Enc) encodeAppend(st *bstate, call *ssa.CallCommon, resType types.Type,
 	case *types.Slice:
 		x := e.val(call.Args[1]).T
 		srcLen = app("slength", x)
-		srcAt = app("select", app("select", e.heapVar(st, c), app("sbase", x)), app("+", app("soff", x), "%K"))
+		srcAt = app("select", app("select", e.heapVar(st, c), app("sbase", x)), app("idx", app("soff", x), "%K"))
 		_ = t
 	case *types.Basic: // append([]byte, string...)
 		x := e.val(call.Args[1]).T
@@ -605,8 +605,11 @@ func (e *Enc) encodeAppend(st *bstate, call *ssa.CallCommon, resType types.Type,
 	oldTarget := app("select", old, app("sbase", s))
 	// single element appended through a freshly built varargs slice is by far the most common case
 	srcK := func(k string) string { return strings.ReplaceAll(srcAt, "%K", k) }
-	e.assert(fmt.Sprintf("(forall ((j Int)) (! (= (select %s j) (ite (and (<= (+ %s (slength %s)) j) (< j (+ %s %s))) %s (ite %s (select %s j) (select %s (+ (soff %s) (- j 0)))))) :pattern ((select %s j))))",
-		arr, to, s, to, newLen, srcK(fmt.Sprintf("(- j (+ %s (slength %s)))", to, s)), fits, oldTarget, oldTarget, s, arr))
+	inApp := fmt.Sprintf("(and (<= (+ %s (slength %s)) j) (< j (+ %s %s)))", to, s, to, newLen)
+	e.assert(fmt.Sprintf("(forall ((j Int)) (! (and (=> %s (= (select %s j) %s)) (=> (and (not %s) %s) (= (select %s j) (select %s j))) (=> (and (not %s) (<= 0 j) (< j (slength %s))) (= (select %s j) (select %s (idx (soff %s) j))))) :pattern ((select %s j))))",
+		inApp, arr, srcK(fmt.Sprintf("(- j (+ %s (slength %s)))", to, s)),
+		inApp, fits, arr, oldTarget,
+		fits, s, arr, oldTarget, s, arr))
 	if e.C != nil && e.C.HasMod && !e.inFrame(c) {
 		e.W.needRoot()
 		e.oblige(st, "frame", c.Name+"@append", sOr(sNot(fits), sEq(n, "0"), app(">", app("root", app("sbase", s)), e.entryAlloc)), pos)
@@ -628,7 +631,7 @@ func (e *Enc) encodeCopy(st *bstate, call *ssa.CallCommon, resType types.Type, p
 	case *types.Slice:
 		x := e.val(call.Args[1]).T
 		srcLen = app("slength", x)
-		srcAt = app("select", app("select", old, app("sbase", x)), app("+", app("soff", x), "%K"))
+		srcAt = app("select", app("select", old, app("sbase", x)), app("idx", app("soff", x), "%K"))
 	default:
 		x := e.val(call.Args[1]).T
 		srcLen = app("slen", x)
